@@ -44,6 +44,8 @@ pub struct Cfg {
     pub judge_layout: bool,
     #[serde(default)]
     pub yield_mode: bool,
+    #[serde(default)]
+    pub backend: crate::disk::Backend,
 }
 
 impl Cfg {
@@ -57,6 +59,7 @@ impl Cfg {
             judge_tree: false,
             judge_layout: false,
             yield_mode: false,
+            backend: crate::disk::Backend::Sim,
         }
     }
 }
@@ -270,6 +273,19 @@ pub struct World {
     pub distinct_states: std::collections::BTreeSet<u64>,
     pub pool: std::collections::BTreeMap<u32, crate::net::Msg>,
     pub sim_time: u64,
+    pub scratch: Option<std::path::PathBuf>,
+}
+
+impl Drop for World {
+    fn drop(&mut self) {
+        if let Some(d) = self.scratch.take() {
+            for n in self.nodes.iter_mut() {
+                let c = n.core.take();
+                let _ = std::panic::catch_unwind(std::panic::AssertUnwindSafe(move || drop(c)));
+            }
+            let _ = std::fs::remove_dir_all(&d);
+        }
+    }
 }
 
 pub fn key_from_seed(seed: u64) -> SigningKey {
@@ -397,9 +413,22 @@ impl World {
             distinct_states: Default::default(),
             pool: Default::default(),
             sim_time: 0,
+            scratch: None,
         };
+        let scratch = if cfg.backend == crate::disk::Backend::DiskFs {
+            static CTR: std::sync::atomic::AtomicU64 = std::sync::atomic::AtomicU64::new(0);
+            let c = CTR.fetch_add(1, std::sync::atomic::Ordering::SeqCst);
+            let d = std::path::PathBuf::from(format!("/dev/shm/hcsim-{}-{}", std::process::id(), c));
+            let _ = std::fs::remove_dir_all(&d);
+            std::fs::create_dir_all(&d).expect("scratch dir");
+            crate::exec::enable_tokio();
+            Some(d)
+        } else {
+            None
+        };
+        w.scratch = scratch.clone();
         for n in 0..=(cfg.replicas as usize) {
-            let disk = Disk::new();
+            let disk = Disk::with_backend(cfg.backend, scratch.as_ref().map(|d| d.join(format!("n{n}"))));
             {
                 let mut st = disk.lock();
                 st.journaling = true;
